@@ -807,6 +807,10 @@ type c05Run struct {
 
 	cutReported bool
 	trk         c05TrickleState
+	// afterDetection (optional) is called once the detection phase of the case is over and judged
+	afterDetection func()
+	// detection (composition) bracket, UnixNano; read by the watchdog while the case may still run
+	composeStartNs, composeEndNs atomic.Int64
 
 	evMu   sync.Mutex
 	events []string
@@ -942,8 +946,10 @@ func (x *c05Run) daeSide(lConn *net.TCPConn, upstream *net.TCPAddr, dst netip.Ad
 			close(x.composed)
 		}
 	}()
+	x.composeStartNs.Store(c0.UnixNano())
 	lRelay, err := c05Compose(x.cp, lConn, dst, rr, &x.comp)
 	x.composeDur = time.Since(c0)
+	x.composeEndNs.Store(time.Now().UnixNano())
 	if x.comp.sniffer != nil {
 		defer func() { _ = x.comp.sniffer.Close() }()
 	}
@@ -1392,9 +1398,17 @@ func (x *c05Run) run() {
 	if cs.Trickle > 0 {
 		x.noteTrickleAtComposition()
 	}
-	if x.composeDur > x.comp.windows+2*time.Second && x.calm(x.t0) && (cs.Trickle == 0 || x.trickleDelayRepeats(pre, dst, rr)) {
-		x.violate("detection-delay/"+x.comp.outcome, fmt.Sprintf("protocol detection delayed the connection by %.0f ms, windows sum to %.0f ms",
-			ms(int64(x.composeDur)), ms(int64(x.comp.windows))), c05If(cs.Trickle > 0, x.trickleWitness(), nil))
+	if x.composeDur > x.comp.windows+2*time.Second {
+		if cs.Trickle > 0 {
+			// judged at the end of the run, when nothing else is going on in this process (c05_edge_verif_test.go)
+			c05TrickleCands.add(x, pre, dst, rr)
+		} else if x.calm(x.t0) {
+			x.violate("detection-delay/"+x.comp.outcome, fmt.Sprintf("protocol detection delayed the connection by %.0f ms, windows sum to %.0f ms",
+				ms(int64(x.composeDur)), ms(int64(x.comp.windows))), nil)
+		}
+	}
+	if x.afterDetection != nil {
+		x.afterDetection()
 	}
 
 	// phase 1: bulk
@@ -1898,6 +1912,72 @@ func TestVerifC05(t *testing.T) {
 	})
 	sem := make(chan struct{}, par)
 	var wg sync.WaitGroup
+	launch := func(cs *c05Case, slot bool, afterDetection func()) {
+		wg.Add(1)
+		go func() {
+			defer wg.Done()
+			if slot {
+				defer func() { <-sem }()
+			}
+			x := &c05Run{cs: cs, m: m, seed: seed, cp: cps[cs.WindowMs], r: rand.New(rand.NewPCG(cs.CaseSeed, 0)), afterDetection: afterDetection}
+			done := make(chan struct{})
+			go func() {
+				defer close(done)
+				defer func() {
+					if p := recover(); p != nil {
+						m.Violation("harness-panic", fmt.Sprintf("panic while running case: %v", p), map[string]any{"case": cs})
+					}
+				}()
+				m.Eval(1)
+				x.run()
+			}()
+			select {
+			case <-done:
+			case <-time.After(120 * time.Second):
+				x.abort.Store(true)
+				x.watchdogExpired()
+			}
+			if afterDetection != nil {
+				afterDetection()
+			}
+		}()
+	}
+	// Trickled first flights start alone: their detection phases (<= 2 sniffing windows, 5 s on port
+	// 53) are timed, and the timing verdicts are only drawn while the lag probes are quiet, which is
+	// far likelier before the bulk traffic below starts. What is left of the flights afterwards runs
+	// next to everything else.
+	{
+		var batch []*c05Case
+		for _, i := range order {
+			if cs := cases[i]; cs.Trickle > 0 {
+				batch = append(batch, cs)
+			}
+		}
+		// if the machine was too busy for a single one of them to be timed, a few more are tried
+		// (the timed part of a flight is short on code that keeps its windows) before the run is
+		// declared inconclusive for the class
+		extra, extraID := vk.NewRand(0xC05EE), 11000
+		for round := 0; ; round++ {
+			var detecting sync.WaitGroup
+			for _, cs := range batch {
+				detecting.Add(1)
+				var once sync.Once
+				launch(cs, false, func() { once.Do(detecting.Done) })
+			}
+			over := make(chan struct{})
+			go func() { detecting.Wait(); close(over) }()
+			select {
+			case <-over:
+			case <-time.After(15 * time.Second):
+				m.Count("trickle_detection_phase_still_running_when_bulk_started", 1)
+			}
+			if c05TrickleJudged.Load() > 0 || round == 4 {
+				break
+			}
+			m.Count("trickle_extra_batch_after_none_could_be_timed", 1)
+			batch = c05GenTrickleSniff(extra, &extraID, 4)
+		}
+	}
 	// Torn-down relays run next to the judged cases: whatever a relay that died with bytes in flight
 	// leaves behind in process-wide state (pooled splice pipes, pooled buffers) must not leak into
 	// the streams of the other connections, which keep being compared byte for byte.
@@ -1928,30 +2008,11 @@ func TestVerifC05(t *testing.T) {
 	}()
 	for _, i := range order {
 		cs := cases[i]
+		if cs.Trickle > 0 {
+			continue
+		}
 		sem <- struct{}{}
-		wg.Add(1)
-		go func() {
-			defer wg.Done()
-			defer func() { <-sem }()
-			x := &c05Run{cs: cs, m: m, seed: seed, cp: cps[cs.WindowMs], r: rand.New(rand.NewPCG(cs.CaseSeed, 0))}
-			done := make(chan struct{})
-			go func() {
-				defer close(done)
-				defer func() {
-					if p := recover(); p != nil {
-						m.Violation("harness-panic", fmt.Sprintf("panic while running case: %v", p), map[string]any{"case": cs})
-					}
-				}()
-				m.Eval(1)
-				x.run()
-			}()
-			select {
-			case <-done:
-			case <-time.After(120 * time.Second):
-				x.abort.Store(true)
-				m.Inconclusive("case %d watchdog (120 s)", cs.ID)
-			}
-		}()
+		launch(cs, true, nil)
 	}
 	wg.Wait()
 	<-lockStepDone
@@ -1986,6 +2047,8 @@ func TestVerifC05(t *testing.T) {
 		}
 		wg.Wait()
 	}
+	// trickled flights whose detection phase outlasted its windows: judged now, with nothing else running
+	c05TrickleCands.judge(m)
 	c05SigMu.Lock()
 	if len(c05SigSeen) > 0 {
 		m.Set("failure_signature_counts", c05SigSeen)
